@@ -5,6 +5,7 @@ import (
 	"fmt"
 	"sort"
 	"sync"
+	"time"
 
 	"github.com/libdns/libdns"
 	"github.com/mholt/acmez/v3/acme"
@@ -32,7 +33,10 @@ func (n *NoopSolver) CleanUp(context.Context, acme.Challenge) error {
 }
 
 // DNSRecord is one record held by the DNSProviderDouble.
-type DNSRecord struct{ Zone, Name, Type, Data string }
+type DNSRecord struct {
+	Zone, Name, Type, Data string
+	TTL                    time.Duration // as stored by the provider (after normalisation)
+}
 
 // DNSCall is one call on the provider double.
 type DNSCall struct {
@@ -46,21 +50,36 @@ type DNSCall struct {
 // DNSProviderDouble implements certmagic.DNSProvider (libdns RecordAppender + RecordDeleter)
 // over an in-memory multiset of records. It honours the context (a cancelled context fails the
 // call, as a properly implemented provider does) and can be told to fail the next calls.
+//
+// It keeps the libdns contract to the letter: AppendRecords returns the records AS CREATED — with
+// MinTTL > 0 the provider normalises (a TTL below the minimum, or none, is stored as the minimum, as
+// real providers do) — and DeleteRecords deletes only what matches the input exactly in name, type,
+// TTL and value, where an empty type, a zero TTL or an empty value match anything; input that
+// matches nothing is silently ignored (no error).
 type DNSProviderDouble struct {
 	mu      sync.Mutex
 	Records []DNSRecord
 	Calls   []DNSCall
 	// FailAppend / FailDelete: the next call of that kind fails (and has no effect) while > 0.
 	FailAppend, FailDelete int
+	// MinTTL > 0: normalising mode, records are stored (and reported) with at least this TTL.
+	MinTTL time.Duration
+	// Ignored counts records handed to DeleteRecords that matched nothing.
+	Ignored int
 }
 
 func (p *DNSProviderDouble) AppendRecords(ctx context.Context, zone string, recs []libdns.Record) ([]libdns.Record, error) {
 	p.mu.Lock()
 	defer p.mu.Unlock()
 	call := DNSCall{Kind: "Append", Zone: zone}
+	var created []libdns.Record
 	for _, r := range recs {
 		rr := r.RR()
-		call.Recs = append(call.Recs, DNSRecord{zone, rr.Name, rr.Type, rr.Data})
+		if p.MinTTL > 0 && rr.TTL < p.MinTTL {
+			rr.TTL = p.MinTTL
+		}
+		call.Recs = append(call.Recs, DNSRecord{Zone: zone, Name: rr.Name, Type: rr.Type, Data: rr.Data, TTL: rr.TTL})
+		created = append(created, rr)
 	}
 	var err error
 	if cerr := ctx.Err(); cerr != nil {
@@ -77,7 +96,7 @@ func (p *DNSProviderDouble) AppendRecords(ctx context.Context, zone string, recs
 	}
 	p.Records = append(p.Records, call.Recs...)
 	p.Calls = append(p.Calls, call)
-	return recs, nil
+	return created, nil
 }
 
 func (p *DNSProviderDouble) DeleteRecords(ctx context.Context, zone string, recs []libdns.Record) ([]libdns.Record, error) {
@@ -86,7 +105,7 @@ func (p *DNSProviderDouble) DeleteRecords(ctx context.Context, zone string, recs
 	call := DNSCall{Kind: "Delete", Zone: zone}
 	for _, r := range recs {
 		rr := r.RR()
-		call.Recs = append(call.Recs, DNSRecord{zone, rr.Name, rr.Type, rr.Data})
+		call.Recs = append(call.Recs, DNSRecord{Zone: zone, Name: rr.Name, Type: rr.Type, Data: rr.Data, TTL: rr.TTL})
 	}
 	var err error
 	if cerr := ctx.Err(); cerr != nil {
@@ -102,14 +121,27 @@ func (p *DNSProviderDouble) DeleteRecords(ctx context.Context, zone string, recs
 		return nil, err
 	}
 	var deleted []libdns.Record
-	for i, want := range call.Recs {
-		// libdns: delete the records that match exactly; one stored record per requested record
-		for k, have := range p.Records {
-			if have == want {
-				p.Records = append(p.Records[:k], p.Records[k+1:]...)
-				deleted = append(deleted, recs[i])
-				break
+	for _, want := range call.Recs {
+		matches := func(have DNSRecord) bool {
+			return have.Zone == want.Zone && have.Name == want.Name &&
+				(want.Type == "" || have.Type == want.Type) &&
+				(want.TTL == 0 || have.TTL == want.TTL) &&
+				(want.Data == "" || have.Data == want.Data)
+		}
+		wildcard := want.Type == "" || want.TTL == 0 || want.Data == ""
+		n := 0
+		var kept []DNSRecord
+		for _, have := range p.Records {
+			if matches(have) && (wildcard || n == 0) {
+				n++
+				deleted = append(deleted, libdns.RR{Name: have.Name, Type: have.Type, Data: have.Data, TTL: have.TTL})
+				continue
 			}
+			kept = append(kept, have)
+		}
+		p.Records = kept
+		if n == 0 {
+			p.Ignored++ // libdns: input that does not exist in the zone is silently ignored
 		}
 	}
 	p.Calls = append(p.Calls, call)
